@@ -78,7 +78,7 @@ PROPS = {
     "C03": {
         "parts": [
             {"engine": "D", "crate": "d_node", "harnesses": [
-                {"name": "c03_paid_put", "covers": ["stored", "rejected"], "quick": {"max_paths": 100000, "timeout": 900}},
+                {"name": "c03_paid_put", "covers": ["unknown_payee_xor_near", "stored", "rejected"], "quick": {"max_paths": 100000, "timeout": 900}},
                 {"name": "c03_unpaid_put", "covers": ["immutable_unpaid", "not_held", "update_of_held"], "quick": {"max_paths": 1000, "timeout": 600}},
             ]},
         ],
@@ -89,7 +89,7 @@ PROPS = {
     "C04": {
         "parts": [
             {"engine": "D", "crate": "d_net", "harnesses": [
-                {"name": "c04_unverified_put", "covers": ["put", "oversized", "unparseable", "forwarded"], "quick": {"max_paths": 1000, "timeout": 300}},
+                {"name": "c04_unverified_put", "covers": ["put", "oversized", "unparseable", "forwarded", "store_at_capacity"], "quick": {"max_paths": 1000, "timeout": 300}},
             ]},
             {"engine": "D", "crate": "d_node", "harnesses": [
                 {"name": "c04_key_binding", "covers": ["foreign_key", "derived_key", "content_already_held_under_its_own_key"], "quick": {"max_paths": 1000, "timeout": 600}},
@@ -188,6 +188,7 @@ PROPS = {
                 {"name": "c09_two_versions_both_fetched", "covers": ["ran"], "quick": {"max_paths": 10000, "timeout": 600}},
             ]},
             {"engine": "D", "crate": "d_node", "harnesses": [
+                {"name": "c09_divergent_replica_fetched", "covers": ["fetched_divergent_version"], "quick": {"max_paths": 10000, "timeout": 600}},
                 {"name": "c09_fetch_from_holder", "covers": ["fetched", "holder_had_it", "holder_sent_something_else", "holder_failed"], "quick": {"max_paths": 10000, "timeout": 600}},
             ]},
         ],
@@ -261,26 +262,26 @@ PROPS = {
     "C14": {
         "parts": [
             {"engine": "D", "crate": "d_client", "harnesses": [
-                {"name": "c14_round_trip", "covers": ["too_small", "zero_levels", "one_level", "two_levels", "fetched", "random_content", "zero_content", "periodic_content"],
+                {"name": "c14_round_trip", "covers": ["too_small", "zero_levels", "one_level", "two_levels", "fetched", "random_content", "zero_content", "periodic_content", "repeated_blocks_content"],
                  "quick": {"max_paths": 100000, "timeout": 600},
                  "thorough": {"env": {"C14_LENS": 14}, "max_paths": 1000000, "timeout": 1800}},
             ]},
         ],
         "assumptions": COMMON_D_ASSUMPTIONS[:1] + [
             "engine D on transplanted autonomi/src/self_encryption.rs (whole file: encrypt, pack_data_map, wrap_data_map, DataMapLevel) and the items data_get_public, chunk_get, fetch_from_data_map, fetch_from_data_map_chunk, process_tasks_with_max_concurrency, GetError of autonomi/src/client; real: ant-protocol Chunk (its Serialize impl and content address), record header/codec, rmp-serde, bytes, futures::FuturesUnordered, SHA-3 content addresses",
-            "the external self_encryption crate is an ideal model (shim::self_encryption): data of >= MIN_ENCRYPTABLE_BYTES bytes is cut into max(3, ceil(len/512)) pieces, the encrypted chunk of a piece is an invertible image of the same length, the data map lists index / chunk hash / piece hash / piece length, decrypt_full_set decrypts the chunks it is handed by index without comparing their number or hashes with the data map (as lenient as the real crate); compression, AES and the crate's own size classes are not executed",
+            "the external self_encryption crate is an ideal model (shim::self_encryption): data of >= MIN_ENCRYPTABLE_BYTES bytes is cut into max(3, ceil(len/512)) pieces, the encrypted chunk of a piece is an invertible image of the same length keyed by the hashes of that piece and its two predecessors (as in the real crate), the data map lists index / chunk hash / piece hash / piece length, decrypt_full_set decrypts the chunks it is handed by index without comparing their number or hashes with the data map (as lenient as the real crate); compression, AES and the crate's own size classes are not executed",
             "what the repository's code reads as *MAX_CHUNK_SIZE is a symbolic 64-bit value assumed >= the model's piece size (in the real crate both are one constant); one checked substitution turns the buffer capacity hint BytesMut::with_capacity(*MAX_CHUNK_SIZE) into a native 0",
             "rayon's into_par_iter is sequential; tracing macros are no-ops; the client's network handle is an in-memory record source holding exactly the produced chunks, whose i-th reply becomes ready after a harness-chosen number of polls (completion order of concurrent fetches); CHUNK_DOWNLOAD_BATCH_SIZE in {1, 2, 64}",
         ],
         "bounds": {"quick": "input lengths 0,1,2,3,4, 3*512-1, 3*512, 3*512+1, 4*512, 10*512, 12*512+5, 60*512+7 (0, 1 and 2 additional data-map levels are reached; which one is decided by the solver from the symbolic MAX_CHUNK_SIZE against the concrete serialised sizes); all 6 completion orders of a 3-chunk read, 4 delay patterns otherwise; 3 batch sizes",
                    "thorough": "additionally lengths 7*512+3 and 200*512+1 (three additional levels)"},
-        "outside": ["the self_encryption crate itself (compression, AES, its size classes at multiples of MAX_CHUNK_SIZE, MIN_ENCRYPTABLE_BYTES): ideal model", "contents other than three byte strings per length (pseudo-random; all zeros; periodic with the piece length -- the last two make several chunks of one data map byte-identical)", "more than two additional data-map levels", "private data (data_get with a DataMapChunk held by the user), archives and file-system walks", "upload, payment and retry behaviour of data_put"],
+        "outside": ["the self_encryption crate itself (compression, AES, its size classes at multiples of MAX_CHUNK_SIZE, MIN_ENCRYPTABLE_BYTES): ideal model", "contents other than four byte strings per length (pseudo-random; all zeros; periodic with the piece length; piece-aligned blocks X Y X -- equal chunks at one address, and equal source pieces whose chunks differ)", "more than two additional data-map levels", "private data (data_get with a DataMapChunk held by the user), archives and file-system walks", "upload, payment and retry behaviour of data_put"],
     },
     "C15": {
         "parts": [
             {"engine": "D", "crate": "d_node", "harnesses": [
                 {"name": "c15_chunk", "covers": ["returned", "error"], "quick": {"max_paths": 1000, "timeout": 300}},
-                {"name": "c15_vault", "covers": ["returned", "error", "error_reply_with_record_refused", "three_versions"], "quick": {"env": {"C15_VERSIONS": 3}, "max_paths": 100000, "timeout": 600}},
+                {"name": "c15_vault", "covers": ["returned", "error", "error_reply_with_record_refused", "three_versions", "foreign_pad_under_its_own_key"], "quick": {"env": {"C15_VERSIONS": 3}, "max_paths": 100000, "timeout": 600}},
             ]},
         ],
         "assumptions": NODE_ASSUMPTIONS[:1] + [
@@ -368,7 +369,7 @@ PROPS = {
                 {"name": "c18_shapes", "covers": ["stored", "refused"], "quick": {"max_paths": 1000, "timeout": 300}},
                 {"name": "c18_sync_flush", "covers": ["merge_with_cleanup", "merge_without_cleanup", "overlap"], "quick": {"max_paths": 100000, "timeout": 600}},
                 {"name": "c18_concurrent_flush", "covers": ["interleaved", "not_interleaved"], "quick": {"max_paths": 10000, "timeout": 600}},
-                {"name": "c18_load_bulk_file", "covers": ["bulk_loaded"], "quick": {"max_paths": 10000, "timeout": 600}},
+                {"name": "c18_load_bulk_file", "covers": ["bulk_loaded", "all_three_last_seen_equal"], "quick": {"max_paths": 10000, "timeout": 600}},
                 {"name": "c18_corrupt", "covers": ["loaded_corrupt"], "quick": {"max_paths": 1000, "timeout": 300}},
                 {"name": "c18_untrusted_file", "covers": ["loaded"], "quick": {"max_paths": 10000, "timeout": 300}},
             ]},
